@@ -29,3 +29,13 @@ MUTANTS += [
     dict(id="c09-type-check", props=["C09"], file="bvll.py", old="if self.bvlciType != 0x81:", new="if self.bvlciType < 0x81:"),
     dict(id="c09-pack-port", props=["C09"], file="pdu.py", old="return (socket.inet_ntoa(addr[0:4]), struct.unpack('!H', addr[4:6])[0])", new="return (socket.inet_ntoa(addr[0:4]), struct.unpack('<H', addr[4:6])[0])"),
 ]
+MUTANTS += [
+    # ---- C18
+    dict(id="c18-net-65535", props=["C18"], file="pdu.py", old="                    if (net_addr >= 65535):\n                        raise ValueError(\"network out of range\")\n                    self.addrType = Address.remoteStationAddr", new="                    if (net_addr > 65535):\n                        raise ValueError(\"network out of range\")\n                    self.addrType = Address.remoteStationAddr"),
+    dict(id="c18-mask-shift", props=["C18"], file="pdu.py", old="(_long_mask << (32 - int(local_ip_net))) & _long_mask", new="(_long_mask << (31 - int(local_ip_net))) & _long_mask"),
+    dict(id="c18-hash-id", props=["C18"], file="pdu.py", old="        return hash(self._tuple())", new="        return hash((self.addrType, self.addrNet, self.addrLen, id(self.addrAddr)))"),
+    dict(id="c18-eq-ignores-net", props=["C18"], file="pdu.py", old="        rslt = rslt and (self.addrNet == arg.addrNet)\n", new=""),
+    dict(id="c18-str-port-default", props=["C18"], file="pdu.py", old="                    if port != 47808:\n                        rslt += ':' + str(port)", new="                    if port != 47809:\n                        rslt += ':' + str(port)", nth=1),
+    dict(id="c18-station-255", props=["C18"], file="pdu.py", old="                        if local_addr >= 256:", new="                        if local_addr >= 255:"),
+    dict(id="c18-host-mask", props=["C18"], file="pdu.py", old="                    self.addrHost = (self.addrIP & ~self.addrMask)\n                    self.addrSubnet = (self.addrIP & self.addrMask)\n                    bcast", new="                    self.addrHost = (self.addrIP & ~self.addrMask) & 0xFFFFFF\n                    self.addrSubnet = (self.addrIP & self.addrMask)\n                    bcast"),
+]
